@@ -1,22 +1,30 @@
 """C09 - DBA declares termination only on a satisfying assignment."""
 from ..algocheck import run_algo_check, replay  # noqa: F401
 
-SHAPES = ["pair", "pair3", "parallel", "path3", "path3d3", "fork3", "triangle", "path4", "star4", "cycle4", "tritail"]
-LARGE = ["path5", "tree5"]
+# constraint-graph diameter of each shape: the statement quantifies over max_distance at or above the diameter
+DIAM = {"pair": 1, "pair3": 1, "parallel": 1, "triangle": 1, "path3": 2, "path3d3": 2, "fork3": 2, "star4": 2, "cycle4": 2, "tritail": 2,
+        "path4": 3, "tree5": 3, "path5": 4}
 CLAUSES = {"EXC", "C09_finished_on_violated_constraint"}
 
 
 def run(tier):
     quick = tier == "quick"
     plans = []
-    for md in (3, 50):
-        plans.append(dict(algo="dba", params={"max_distance": md, "infinity": 10000}, props=["sat"], infinity=10000,
-                          shapes=SHAPES if quick else SHAPES + LARGE, alpha=[0, 0, 10000], n=4 if quick else 12, modes=["min"],
-                          scheds=3 if quick else 6, max_steps=500 if quick else 1500, policies=["random", "lag", "barrier"]))
+    for d in sorted(set(DIAM.values())):
+        shapes = [s for s, x in DIAM.items() if x == d]
+        for md, inf in ((d, 10000), (d, 1000), (d + 1, 10000)) + (() if quick else ((d + 2, 500), (50, 10000))):
+            plans.append(dict(algo="dba", params={"max_distance": md, "infinity": inf}, props=["sat"], infinity=inf,
+                              shapes=shapes, alpha=[0, 0, inf], n=3 if quick else 12, modes=["min"],
+                              scheds=4 if quick else 8, max_steps=400 if quick else 1500,
+                              policies=["random", "lag", "starts_first", "lag", "barrier", "random", "lag", "random"]))
     v = run_algo_check("C09", tier, "model_checking", plans, CLAUSES,
                        nontrivial=lambda vd, m: vd["allfin"],
-                       rule="CSP instances: binary Gen_Dcop shapes whose tables are drawn from {0, 0, 10000} (10000 = DBA's infinity), "
-                            "max_distance 3 (>= diameter of every quick shape) and 50; real DBA computations under seeded FIFO schedules, up "
-                            "to 500/1500 steps; at every step where a computation reports finished, AlgoMon evaluates every constraint on the "
-                            "values held by all computations; non-trivial = executions in which DBA terminated (all computations finished)")
+                       key_extra=lambda vd, m: {"max_distance_minus_diameter": m["params"]["max_distance"] - DIAM[m["inst"]["shape"]],
+                                                "infinity": m["params"]["infinity"]},
+                       rule="CSP instances: binary Gen_Dcop shapes (paths, star, triangle, cycle, tree, parallel constraints; domains 2-3) whose "
+                            "tables are drawn from {0, 0, infinity}; DBA's infinity parameter 10000 and 1000; max_distance = diameter and "
+                            "diameter + 1 (thorough: + 2 and 50); real DBA computations under seeded FIFO schedules (random, laggard computation, "
+                            "all starts first, barrier), up to 400/1500 steps; at every step where a computation reports finished, AlgoMon "
+                            "evaluates every constraint on the values held by all computations; non-trivial = executions in which DBA "
+                            "terminated (all computations finished)")
     return v.finish()
